@@ -20,11 +20,13 @@ type C07Params struct {
 	Deadline bool        `json:"deadline"` // deadline expiry instead of explicit cancel
 	Pos      int         `json:"pos"`      // cancel once the target has produced this many events
 	Others   []*CallSpec `json:"others"`
+	WYield   bool        `json:"wyield,omitempty"` // scheduling point at the entry of the client's transport writes
 }
 
 func genC07(g *rand.Rand, tier string) any {
 	p := &C07Params{}
 	p.Links = drawLinks(g, 2)
+	p.WYield = g.IntN(2) == 0
 	for i := range p.Links {
 		// properties about "returns once its context is done" presuppose a
 		// transport that honours contexts: strict or racy, never deaf
@@ -157,6 +159,7 @@ func execC07(e *Env, pp any) {
 	srv := sim.NewServer()
 	net := Build(e, TopoSpec{Kind: TopoDirect, Clients: 1, Links: p.Links}, srv, nil)
 	cin := net.CEnds[0].In
+	net.CEnds[0].Out.PreWriteYield = p.WYield
 	trailerReadEv := 0
 	cin.OnRead(func(n int, r *Rpc) {
 		if r.GetTrailer() != nil && callOfWireID(net, r.GetId()) == p.Target.ID && trailerReadEv == 0 {
